@@ -884,6 +884,8 @@ func init() {
 		}
 		// iterators of one view do not share mutable state through the view
 		copyStateless(p, r, "VIEW-STATELESS", "iterators obtained from one merged view can influence each other")
+		// every table of the view is asked for the same key
+		copyRules(p, r, checkSeekKeyIntact, "SEEK-KEY-INTACT")
 		r.Engines = []string{"pathsim", "dtable", "effects"}
 		r.Explanation = "Decision tables extracted by path-sensitive simulation and compared, for every valuation of their comparison atoms consistent with the order theory, with the specification: heap order (key ascending, table index descending); shadow loop (discard => not top.key > entry.key; stop with non-empty heap => top.key != entry.key; the record returned is the first removed entry; every removed entry's table is advanced); Next skips exactly suppressed deletions; NewMerged accepts a table only above the previous table's range and with the view's hash id. Dataflow: heap entry index = slot of the sub-iterator that produced the record, slots are never moved, the merged seek returns a fresh merged iterator whose slot i is stack[i].seekRecord(key) and whose suppression flag is the view's; the stack's view suppresses deletions and the compaction's does not."
 		r.NotDecided = []string{"heap sift index arithmetic (that the array is a heap)", "correctness of each table's own iterator (C02)"}
